@@ -3,7 +3,7 @@
     differ in exactly one field ([with_X v cfg], Proofs/ShexBasics.v). *)
 From Coq Require Import List Ascii String ZArith NArith Bool Lia Permutation.
 From Shexer Require Import Lib.PyStr Lib.Dict Gen.Consts Model.Profiler Model.Tokens Model.Freq Model.Shexing.
-From Shexer Require Import Proofs.ShexBasics.
+From Shexer Require Import Proofs.ShexBasics Proofs.ClosureLemmas.
 Import ListNotations.
 
 Lemma map_res_map_res {A B C E} (f : B -> C) (g : A -> B) (r : A + E) :
@@ -362,4 +362,309 @@ Proof.
     destruct (map_err _ (sh_stmts sh)) as [st|e2] eqn:E2; [discriminate|].
     apply map_err_inr in E2. destruct E2 as (st & Hst & Hst').
     exists M0, sh, st, e2. repeat split; assumption.
+Qed.
+
+(** ** O5 — [disable_or_statements].  With disjunctions enabled, only the
+    result of a node-kind merge can change: it becomes a choice statement over
+    the dominant's type and shape types of the merged group, with the same
+    direction, property, cardinality and figures; its comments differ (the
+    dominant shape is then listed among the alternatives' comments). Every
+    other statement is identical.  Either run can fail alone (one more
+    comment is built on one side or the other), so the theorem is about two
+    successful runs. *)
+Definition or_rel (a b : stmt) : Prop :=
+  a = b \/
+  (s_choice a = false /\ s_choice b = true /\ s_inv a = s_inv b /\ s_prop a = s_prop b /\
+   s_card a = s_card b /\ s_nocc a = s_nocc b /\ s_prob a = s_prob b /\
+   1 < List.length (s_types b) /\
+   Forall (fun k => k = s_type a \/ is_shape_type k = true) (s_types b)).
+
+Lemma or_rel_refl a : or_rel a a.
+Proof. left; reflexivity. Qed.
+
+Lemma or_rel_pv fa cnt a b : or_rel a b -> pv fa cnt a = pv fa cnt b.
+Proof.
+  intros [->|(_ & _ & _ & _ & _ & _ & Hp & _)]; [reflexivity|]. unfold pv. rewrite Hp. reflexivity.
+Qed.
+
+Lemma or_rel_nochoice a b : or_rel a b -> s_choice b = false -> a = b.
+Proof. intros [->|(_ & Hb & _)] H; [reflexivity | congruence]. Qed.
+
+(** [add_comments_of] only touches the comments *)
+Definition same_but_comments (a b : stmt) : Prop :=
+  s_inv a = s_inv b /\ s_prop a = s_prop b /\ s_types a = s_types b /\ s_choice a = s_choice b /\
+  s_card a = s_card b /\ s_nocc a = s_nocc b /\ s_prob a = s_prob b.
+
+Lemma add_comments_of_fields cfg l : forall d r,
+  add_comments_of cfg d l = inl r -> same_but_comments r d.
+Proof.
+  induction l as [|x l IH]; simpl; intros d r H.
+  - inversion H; subst. unfold same_but_comments. repeat split.
+  - destruct (comment_of cfg x) as [k|e]; [|discriminate].
+    apply IH in H. unfold same_but_comments in *. simpl in H. exact H.
+Qed.
+
+Section O5.
+  Variable fa : FreqAlg.
+  Variable cfg : scfg.
+  Let c_t := with_disable_or true cfg.
+  Let c_f := with_disable_or false cfg.
+
+  Lemma insert_desc_or cnt x y l1 l2 :
+    or_rel x y -> Forall2 or_rel l1 l2 -> Forall2 or_rel (insert_desc fa cnt x l1) (insert_desc fa cnt y l2).
+  Proof.
+    intros Hxy F. induction F as [|a b l1 l2 Hab F IH]; simpl.
+    - constructor; [exact Hxy | constructor].
+    - rewrite (or_rel_pv fa cnt x y Hxy), (or_rel_pv fa cnt a b Hab).
+      destruct (fle fa (pv fa cnt y) (pv fa cnt b)).
+      + constructor; assumption.
+      + constructor; [exact Hxy|]. constructor; assumption.
+  Qed.
+
+  Lemma sort_desc_or cnt l1 l2 :
+    Forall2 or_rel l1 l2 -> Forall2 or_rel (sort_desc fa cnt l1) (sort_desc fa cnt l2).
+  Proof.
+    unfold sort_desc. intros F.
+    assert (H : forall acc1 acc2, Forall2 or_rel acc1 acc2 ->
+                Forall2 or_rel (fold_left (fun a x => insert_desc fa cnt x a) l1 acc1)
+                               (fold_left (fun a x => insert_desc fa cnt x a) l2 acc2)).
+    { induction F as [|a b l1 l2 Hab F IH]; simpl; intros acc1 acc2 Ha; [exact Ha|].
+      apply IH. apply insert_desc_or; assumption. }
+    apply H. constructor.
+  Qed.
+
+  (** the merge of one group *)
+  Lemma merge_group_or cnt g a b :
+    Forall (fun s => s_choice s = false) g ->
+    Forall (fun s => is_nonliteral_type (s_type s) = true) g ->
+    merge_group fa c_t cnt g = inl a -> merge_group fa c_f cnt g = inl b -> or_rel a b.
+  Proof.
+    intros Hnc Hnl. rewrite !merge_group_eq.
+    destruct (mg_dominant (mg_bnode g) (mg_iri g) (mg_shapes fa cnt g)) as [dom0|e] eqn:Ed; [|discriminate].
+    change (add_comments_of c_t) with (add_comments_of cfg). change (add_comments_of c_f) with (add_comments_of cfg).
+    change (mg_dom1 c_t dom0 (mg_shapes fa cnt g)) with dom0.
+    unfold mg_dom1; simpl.
+    change (mg_or_types c_f) with (mg_or_types cfg).
+    destruct (Nat.ltb 1 (List.length (mg_or_types cfg dom0 (mg_shapes fa cnt g)))) eqn:El.
+    - intros Ha Hb. apply add_comments_of_fields in Ha. apply add_comments_of_fields in Hb.
+      destruct Ha as (Ha1 & Ha2 & Ha3 & Ha4 & Ha5 & Ha6 & Ha7).
+      destruct Hb as (Hb1 & Hb2 & Hb3 & Hb4 & Hb5 & Hb6 & Hb7). simpl in *.
+      (* the dominant is a member of the group or the NONLITERAL statement: not a choice *)
+      assert (Hd0 : s_choice dom0 = false).
+      { eapply (mg_dominant_inv (fun s => s_choice s = false)); [| | | |exact Ed].
+        - intros x i _ _. reflexivity.
+        - intros x Hx. apply last_such_some in Hx. rewrite Forall_forall in Hnc. apply Hnc, Hx.
+        - intros x Hx. apply last_such_some in Hx. rewrite Forall_forall in Hnc. apply Hnc, Hx.
+        - unfold mg_shapes. apply sort_desc_Forall. rewrite Forall_forall in *.
+          intros x Hx. apply filter_In in Hx. apply Hnc, Hx. }
+      right. repeat split; try congruence.
+      + rewrite Hb3. apply Nat.ltb_lt in El. exact El.
+      + rewrite Hb3. rewrite Forall_forall. intros k Hk.
+        apply (mg_or_types_incl cfg) in Hk. destruct Hk as [<-|Hk].
+        * left. unfold s_type. rewrite Ha3. reflexivity.
+        * right. apply in_map_iff in Hk. destruct Hk as (s & <- & Hs). unfold mg_shapes in Hs.
+          apply sort_desc_In in Hs. apply filter_In in Hs. destruct Hs as [Hs Ht].
+          rewrite Forall_forall in Hnl. specialize (Hnl s Hs). unfold is_nonliteral_type in Hnl.
+          apply andb_true_iff in Ht. destruct Ht as [Ht1 Ht2].
+          apply negb_true_iff in Ht1. apply negb_true_iff in Ht2. rewrite Ht1, Ht2 in Hnl.
+          rewrite !orb_false_r in Hnl. exact Hnl.
+    - intros Ha Hb. rewrite Ha in Hb. inversion Hb; subst. left; reflexivity.
+  Qed.
+
+  Lemma group_nodes_or cnt fuel : forall l r_t r_f,
+    Forall (fun s => s_choice s = false) l ->
+    group_nodes fa c_t fuel cnt l = inl r_t -> group_nodes fa c_f fuel cnt l = inl r_f ->
+    Forall2 or_rel r_t r_f.
+  Proof.
+    induction fuel as [|f IH]; simpl; intros l r_t r_f Hnc Ht Hf.
+    - inversion Ht; inversion Hf; subst.
+      clear. induction r_f; constructor; [apply or_rel_refl | assumption].
+    - destruct l as [|a rest]; [inversion Ht; inversion Hf; subst; constructor|].
+      inversion Hnc as [|? ? Ha Hrest]; subst.
+      change (x_tau c_t) with (x_tau cfg) in Ht. change (x_tau c_f) with (x_tau cfg) in Hf.
+      destruct (str_eqb (s_prop a) (x_tau cfg) || negb (is_nonliteral_type (s_type a))) eqn:Eb.
+      + destruct (group_nodes fa c_t f cnt rest) as [rs_t|e] eqn:E1; [|discriminate].
+        destruct (group_nodes fa c_f f cnt rest) as [rs_f|e] eqn:E2; [|discriminate].
+        inversion Ht; inversion Hf; subst. constructor; [apply or_rel_refl|].
+        eapply IH; eassumption.
+      + apply orb_false_iff in Eb. destruct Eb as [_ Eb]. apply negb_false_iff in Eb.
+        match type of Ht with match ?p with _ => _ end = _ => destruct p as [x_t|e] eqn:Ex_t end; [|discriminate].
+        match type of Hf with match ?p with _ => _ end = _ => destruct p as [x_f|e] eqn:Ex_f end; [|discriminate].
+        destruct (group_nodes fa c_t f cnt _) as [rs_t|e] eqn:E1; [|discriminate].
+        destruct (group_nodes fa c_f f cnt _) as [rs_f|e] eqn:E2; [|discriminate].
+        inversion Ht; inversion Hf; subst. constructor.
+        * destruct (filter (mergeable_with a) rest) as [|b grp] eqn:Eg.
+          -- inversion Ex_t; inversion Ex_f; subst. apply or_rel_refl.
+          -- eapply (merge_group_or cnt (a :: b :: grp)); [| |exact Ex_t|exact Ex_f].
+             ++ constructor; [exact Ha|]. rewrite <- Eg. rewrite Forall_forall in *. intros x Hx.
+                apply filter_In in Hx. apply Hrest, Hx.
+             ++ constructor; [exact Eb|]. rewrite <- Eg. rewrite Forall_forall. intros x Hx.
+                apply filter_In in Hx. destruct Hx as [_ Hx]. unfold mergeable_with in Hx.
+                apply andb_true_iff in Hx. apply Hx.
+        * eapply IH; [|exact E1|exact E2]. rewrite Forall_forall in *. intros x Hx.
+          apply filter_In in Hx. apply Hrest, Hx.
+  Qed.
+
+  Lemma select_valid_or cnt l r_t r_f :
+    Forall (fun s => s_choice s = false) l ->
+    select_valid fa c_t cnt l = inl r_t -> select_valid fa c_f cnt l = inl r_f -> Forall2 or_rel r_t r_f.
+  Proof.
+    intros Hnc. unfold select_valid. destruct l as [|a l].
+    - intros Ht Hf. inversion Ht; inversion Hf; subst. constructor.
+    - change (group_same fa c_t) with (group_same fa cfg). change (group_same fa c_f) with (group_same fa cfg).
+      destruct (group_same fa cfg _ cnt (a :: l)) as [l1|e] eqn:E; [|discriminate].
+      apply group_nodes_or.
+      eapply (group_same_inv fa cfg (fun s => s_choice s = false)); [|exact Hnc|exact E].
+      intros s k Hs. exact Hs.
+  Qed.
+
+  Lemma relax_or cnt a b a' b' :
+    or_rel a b -> relax fa c_t cnt a = inl a' -> relax fa c_f cnt b = inl b' -> or_rel a' b'.
+  Proof.
+    intros [->|H].
+    - change (relax fa c_t) with (relax fa c_f). intros H1 H2. rewrite H1 in H2. inversion H2. left; reflexivity.
+    - pose proof (or_rel_pv fa cnt a b (or_intror H)) as Hpv.
+      destruct H as (H1 & H2 & H3 & H4 & H5 & H6 & H7 & H8 & H9).
+      unfold relax. rewrite Hpv. destruct (negb (feqb fa (pv fa cnt b) (fone fa))).
+      + destruct (comment_of c_t a); [|discriminate]. destruct (comment_of c_f b); [|discriminate].
+        intros Ha Hb. inversion Ha; inversion Hb; subst. right. simpl.
+        unfold relax_card. simpl. rewrite H5. repeat split; assumption.
+      + intros Ha Hb. inversion Ha; inversion Hb; subst. right. repeat split; assumption.
+  Qed.
+
+  Lemma post1_or a b : or_rel a b -> or_rel (post1 c_t a) (post1 c_f b).
+  Proof.
+    intros [->|H]; [left; reflexivity|].
+    destruct H as (H1 & H2 & H3 & H4 & H5 & H6 & H7 & H8 & H9). right.
+    change (post1 c_t) with (post1 cfg). change (post1 c_f) with (post1 cfg).
+    unfold post1, generalize_exact, drop_comments, s_type in *. rewrite H5.
+    destruct (x_disable_exact cfg), (x_disable_comments cfg); simpl;
+      try (repeat split; assumption);
+      destruct (s_card b) as [k| | |] eqn:Eb; simpl; try (repeat split; try assumption; congruence);
+      destruct (N.ltb 1 k); simpl; repeat split; try assumption; congruence.
+  Qed.
+
+  Lemma map_err_or (f g : stmt -> stmt + serr) l1 l2 : forall r1 r2,
+    (forall a b a' b', or_rel a b -> f a = inl a' -> g b = inl b' -> or_rel a' b') ->
+    Forall2 or_rel l1 l2 -> map_err f l1 = inl r1 -> map_err g l2 = inl r2 -> Forall2 or_rel r1 r2.
+  Proof.
+    intros r1 r2 H F. revert r1 r2. induction F as [|a b l1 l2 Hab F IH]; simpl; intros r1 r2 H1 H2.
+    - inversion H1; inversion H2; subst. constructor.
+    - destruct (f a) as [a'|e] eqn:Ea; [|discriminate]. destruct (g b) as [b'|e] eqn:Eb; [|discriminate].
+      destruct (map_err f l1) as [r1'|e]; [|discriminate]. destruct (map_err g l2) as [r2'|e]; [|discriminate].
+      inversion H1; inversion H2; subst. constructor; [eapply H; eassumption | apply IH; reflexivity].
+  Qed.
+
+  Lemma tune_or cnt v_t v_f st_t st_f :
+    Forall2 or_rel v_t v_f -> tune fa c_t cnt v_t = inl st_t -> tune fa c_f cnt v_f = inl st_f ->
+    Forall2 or_rel st_t st_f.
+  Proof.
+    intros F. rewrite !tune_eq. pose proof (sort_desc_or cnt _ _ F) as Fs.
+    destruct (relax_phase fa c_t cnt _) as [l_t|e] eqn:Et; simpl; [|discriminate].
+    destruct (relax_phase fa c_f cnt _) as [l_f|e] eqn:Ef; simpl; [|discriminate].
+    intros H1 H2. inversion H1; inversion H2; subst.
+    assert (Fl : Forall2 or_rel l_t l_f).
+    { unfold relax_phase in *. change (x_all_compliant c_t) with (x_all_compliant cfg) in Et.
+      change (x_all_compliant c_f) with (x_all_compliant cfg) in Ef.
+      destruct (x_all_compliant cfg).
+      - eapply map_err_or; [|exact Fs|exact Et|exact Ef]. intros a b a' b'. apply relax_or.
+      - inversion Et; inversion Ef; subst. exact Fs. }
+    clear -Fl. induction Fl as [|a b l_t l_f Hab Fl IH]; simpl; constructor; [apply post1_or; exact Hab | exact IH].
+  Qed.
+
+  Lemma base_statements_nochoice thr cnt inv pd :
+    Forall (fun s => s_choice s = false) (base_statements fa thr cnt inv pd).
+  Proof. apply base_statements_Forall. intros. reflexivity. Qed.
+
+  Theorem O5_class thr counts ce sh_t sh_f :
+    shex_class fa c_t thr counts ce = inl sh_t -> shex_class fa c_f thr counts ce = inl sh_f ->
+    shape_rel (fun _ => or_rel) sh_t sh_f.
+  Proof.
+    rewrite !shex_class_eq.
+    change (class_sorted fa c_t thr counts ce) with (class_sorted fa cfg thr counts ce).
+    change (class_sorted fa c_f thr counts ce) with (class_sorted fa cfg thr counts ce).
+    assert (Hs : Forall (fun s => s_choice s = false) (class_sorted fa cfg thr counts ce)).
+    { unfold class_sorted. apply sort_desc_Forall, Forall_app. split; [apply base_statements_nochoice|].
+      destruct (x_inverse cfg); [apply base_statements_nochoice | constructor]. }
+    destruct (select_valid fa c_t _ (filter (fun s => negb (s_inv s)) _)) as [vd_t|e] eqn:E1; simpl; [|discriminate].
+    destruct (select_valid fa c_t _ (filter (fun s => s_inv s) _)) as [vi_t|e] eqn:E2; simpl; [|discriminate].
+    destruct (select_valid fa c_f _ (filter (fun s => negb (s_inv s)) _)) as [vd_f|e] eqn:E3; simpl; [|discriminate].
+    destruct (select_valid fa c_f _ (filter (fun s => s_inv s) _)) as [vi_f|e] eqn:E4; simpl; [|discriminate].
+    destruct (tune fa c_t _ (vd_t ++ vi_t)) as [st_t|e] eqn:E5; simpl; [|discriminate].
+    destruct (tune fa c_f _ (vd_f ++ vi_f)) as [st_f|e] eqn:E6; simpl; [|discriminate].
+    intros H1 H2. inversion H1; inversion H2; subst. unfold shape_rel; simpl. repeat split.
+    eapply tune_or; [|exact E5|exact E6]. apply Forall2_app.
+    - eapply select_valid_or; [|exact E1|exact E3]. rewrite Forall_forall in *. intros x Hx.
+      apply filter_In in Hx. apply Hs, Hx.
+    - eapply select_valid_or; [|exact E2|exact E4]. rewrite Forall_forall in *. intros x Hx.
+      apply filter_In in Hx. apply Hs, Hx.
+  Qed.
+
+  Theorem O5_classes thr counts P M_t M_f :
+    map_err (shex_class fa c_t thr counts) P = inl M_t -> map_err (shex_class fa c_f thr counts) P = inl M_f ->
+    Forall2 (shape_rel (fun _ => or_rel)) M_t M_f.
+  Proof.
+    revert M_t M_f. induction P as [|ce P IH]; simpl; intros M_t M_f H1 H2.
+    - inversion H1; inversion H2; subst. constructor.
+    - destruct (shex_class fa c_t thr counts ce) as [sh_t|e] eqn:E1; [|discriminate].
+      destruct (shex_class fa c_f thr counts ce) as [sh_f|e] eqn:E2; [|discriminate].
+      destruct (map_err _ P) as [r_t|e]; [|discriminate].
+      destruct (map_err (shex_class fa c_f thr counts) P) as [r_f|e]; [|discriminate].
+      inversion H1; inversion H2; subst. constructor; [eapply O5_class; eassumption | apply IH; reflexivity].
+  Qed.
+End O5.
+
+(** O5 for the whole [shex], cleaning included: if both runs succeed and a
+    cleaning iteration takes place, the run with disjunctions had no choice
+    statement in any surviving shape (else it raises TypeError), so the two
+    runs coincide from there on *)
+Lemma or_rel_list_nochoice l1 l2 :
+  Forall2 or_rel l1 l2 -> existsb (fun st => s_choice st) l2 = false -> l1 = l2.
+Proof.
+  intros F. induction F as [|a b l1 l2 Hab F IH]; simpl; intros H; [reflexivity|].
+  apply orb_false_iff in H. destruct H as [Hb Hl].
+  rewrite (or_rel_nochoice a b Hab Hb), (IH Hl). reflexivity.
+Qed.
+
+Lemma or_shape_nochoice sh_t sh_f :
+  shape_rel (fun _ => or_rel) sh_t sh_f -> existsb (fun st => s_choice st) (sh_stmts sh_f) = false ->
+  sh_t = sh_f.
+Proof.
+  intros (H1 & H2 & H3 & H4) Hc. apply or_rel_list_nochoice in H4; [|exact Hc].
+  destruct sh_t, sh_f; simpl in *. subst. reflexivity.
+Qed.
+
+Lemma Forall2_refl_on {A} (R : A -> A -> Prop) l : (forall x, R x x) -> Forall2 R l l.
+Proof. intros H. induction l; constructor; auto. Qed.
+
+Theorem O5_disable_or fa cfg thr P C L_t L_f :
+  shex fa (with_disable_or true cfg) thr P C = inl L_t ->
+  shex fa (with_disable_or false cfg) thr P C = inl L_f ->
+  Forall2 (shape_rel (fun _ => or_rel)) L_t L_f.
+Proof.
+  unfold shex.
+  destruct (map_err (shex_class fa (with_disable_or true cfg) thr C) P) as [M_t|e] eqn:Et; [|discriminate].
+  destruct (map_err (shex_class fa (with_disable_or false cfg) thr C) P) as [M_f|e] eqn:Ef; [|discriminate].
+  pose proof (O5_classes fa cfg thr C P M_t M_f Et Ef) as FM.
+  change (x_remove_empty (with_disable_or true cfg)) with (x_remove_empty cfg).
+  change (x_remove_empty (with_disable_or false cfg)) with (x_remove_empty cfg).
+  destruct (x_remove_empty cfg); [|intros H1 H2; inversion H1; inversion H2; subst; exact FM].
+  rewrite !clean_shapes_S, (empty_names_rel _ M_t M_f FM), (Forall2_len _ _ _ FM).
+  destruct (empty_names M_f) as [|nm names]; [intros H1 H2; inversion H1; inversion H2; subst; exact FM|].
+  destruct (clean_step (nm :: names) M_f) as [M_f'|e] eqn:Es; [|discriminate].
+  assert (Hfil : filter (fun s => negb (mem_str (sh_name s) (nm :: names))) M_t =
+                 filter (fun s => negb (mem_str (sh_name s) (nm :: names))) M_f).
+  { unfold clean_step in Es. apply map_err_Forall2 in Es.
+    assert (FF : Forall2 (shape_rel (fun _ => or_rel))
+                   (filter (fun s => negb (mem_str (sh_name s) (nm :: names))) M_t)
+                   (filter (fun s => negb (mem_str (sh_name s) (nm :: names))) M_f)).
+    { apply Forall2_filter; [|exact FM]. intros a b (-> & _). reflexivity. }
+    revert Es FF. generalize (filter (fun s => negb (mem_str (sh_name s) (nm :: names))) M_f).
+    generalize (filter (fun s => negb (mem_str (sh_name s) (nm :: names))) M_t).
+    intros l1 l2 Es FF. revert M_f' Es. induction FF as [|a b l1 l2 Hab FF IH]; intros M_f' Es; [reflexivity|].
+    inversion Es as [|? ? ? ? Hb Es']; subst. apply prune_shape_inl in Hb. destruct Hb as (Hc & _).
+    rewrite (or_shape_nochoice a b Hab Hc), (IH _ Es'). reflexivity. }
+  unfold clean_step in *. rewrite Hfil, Es. intros H1 H2. rewrite H1 in H2. inversion H2; subst.
+  apply Forall2_refl_on. intros sh. unfold shape_rel. repeat split.
+  apply Forall2_refl_on. intros st. apply or_rel_refl.
 Qed.
